@@ -750,6 +750,8 @@ class Engine:
         ordinal = self.loop_counter
         self.loop_counter += 1
         inv = self.reg.find_loop(self.cur_target, ordinal)
+        if inv is not None and self._small_concrete(it, st) == []:
+            return [(st, None)]         # iteration over a literally empty collection: nothing to do
         if inv is not None:
             return self.exec_for_invariant(node, it, inv, st, ordinal)
         elems = self._small_concrete(it, st)
@@ -762,6 +764,10 @@ class Engine:
         """Elements of an iterable whose length is a small known constant (then the loop is unrolled exactly)."""
         if it.k == "tuple" and len(it.x) <= 4:
             return list(it.x)
+        if it.k == "set" and z3.eq(z3.simplify(it.t), z3.simplify(EmptySet)):
+            return []           # the literally empty set (e.g. a default argument set())
+        if it.k == "gen" and all(z3.is_false(z3.simplify(b.cond)) for b in it.x):
+            return []           # e.g. the items of a literally empty dict
         if it.k == "range":
             a, b, s_ = it.x
             if s_.k == "int" and z3.is_int_value(s_.t) and s_.t.as_long() == 1:
@@ -799,6 +805,16 @@ class Engine:
         if k == "set":
             x = fresh("x", Val)
             return [Bag([x], z3.Select(it.t, x), self.schema.refine(SV("val", x, cls=it.cls)))]
+        if k == "pbrep":
+            # a repeated scalar protobuf field, iterated: its member set (order and multiplicity are not modelled)
+            r_, msg_, attr_ = it.x
+            x = fresh("x", Val)
+            members = z3.Select(self.field_array(st, self.schema.pb.key(msg_, attr_) + "#set"), r_)
+            ftype = self.schema.pb.fdef(msg_, attr_)["type"]
+            if self.schema.pb.is_msg(ftype):
+                # a repeated message field: its member messages (each a reference to a message of the field's type)
+                return [Bag([x], z3.And(z3.Select(members, x), is_VRef(x)), SV("ref", ref(x), cls="pb:" + ftype))]
+            return [Bag([x], z3.Select(members, x), SV("val", x))]
         if k == "optset":
             x = fresh("x", Val)
             st.oblige("safety.iterated_optional_is_not_none", it.x)
@@ -1200,6 +1216,8 @@ class Engine:
                 res = fresh("U", SetSort)
                 st.define(z3.ForAll([x], z3.Select(res, x) == z3.Or(z3.Select(sa, x), z3.Select(sb, x))))
                 return SV("set", res, cls=ecls)
+            if T is ast.Sub and z3.eq(z3.simplify(sa), z3.simplify(EmptySet)):
+                return SV("set", EmptySet, cls=ecls)        # {} - X
             if T is ast.Sub:
                 res = fresh("D", SetSort)
                 st.define(z3.ForAll([x], z3.Select(res, x) == z3.And(z3.Select(sa, x), z3.Not(z3.Select(sb, x)))))
@@ -1512,10 +1530,24 @@ class Engine:
                 v = self.eval(elt, s)
                 return [(s, None, v)]
             mark_e = len(self.exc_paths)
+            mark_s = serial_mark()
+            pc_len = len(st.pc)
             outs = self.iterate_stateless(st, bags, body, "generator expression in %s" % self.cur_target,
                                           collect="values")
             for (s2, ctrl) in outs:
                 self.exc_paths.append((s2, ctrl[1]))
+            # the evaluation continues normally only if no element raised: for every element, none of the exceptional
+            # conditions holds (each exceptional path carries its condition over the element's binders)
+            # (only for contracts that declare that their generator expressions are consumed completely - checked by
+            # inspection; a partially consumed generator, e.g. under any(), may skip an element that would raise)
+            fully = getattr(self.cur_contract, "generators_fully_consumed", False)
+            for (se, _exc) in (self.exc_paths[mark_e:] if fully else []):
+                if len(se.pc) <= pc_len:
+                    continue
+                dec, defs = local_cond(se, pc_len, mark_s)
+                vs = consts_since([dec, defs], mark_s)
+                cond_e = z3.And(defs, dec)
+                st.assume(z3.ForAll(vs, z3.Not(cond_e)) if vs else z3.Not(cond_e), "no element of the generator raised")
             return SV("gen", x=self._last_value_bags)
         mark0 = serial_mark()
 
